@@ -464,7 +464,7 @@ theorem C15_zoom_viewgram_variants_agree (zoom : ℚ) (minT maxT inLo : Int) (ro
 
 /-- "total counts are conserved" / "uniform regions stay uniform" in the simplest case: zoom 1, no shift, the same tangential range gives
     back the data (`zoom_viewgram(out, in, 0, 0)`: "replacing out_viewgram with the new data").  The implementation at the pinned
-    revision returns without writing `out_viewgram` here; the harness oracle reports it (build/fixes/C15-1.diff). -/
+    revision returns without writing `out_viewgram` here; the harness oracle reports it (docs/fixes/C15-1.diff). -/
 theorem C15_zoom_viewgram_identity (lo : Int) (n : Nat) (rows : List (List ℚ)) (b c s : ℚ) (hb : b ≠ 0)
     (hrows : ∀ r ∈ rows, r.length = n) : zoomViewgram lo n lo rows b b 0 0 c s = rows :=
   zoomViewgram_identity lo n rows b c s hb hrows
